@@ -456,7 +456,9 @@ func c02Run(c *engine.Ctx) {
 	// (L6) invalid-path law: navigating from a computed value raises an error and changes nothing
 	c.Sub("invalid-path")
 	computed := []string{"([.a] | .[0])", "({a: .a} | .a)", "((.a | tojson | fromjson) | .b)", "(1 | .a)", "($x | .a)", "([.[]] | .[0])", "({} | .a)", "(map_values(.) | .a)", "([1,2] | .[1:])", "(tojson | fromjson | .[])",
-		"(to_entries | .[0])", "([] | .[])", "({} | .[])", "(. as $v | [$v] | .[0] | .a)"}
+		"(to_entries | .[0])", "([] | .[])", "({} | .[])", "(. as $v | [$v] | .[0] | .a)",
+		// slices whose bounds are not literals (they go through the _slice native), on computed arrays and strings
+		"([.[]?] | .[(1):2])", "([.[]?] | .[(0):])", "(\"ba\" | .[(1):])", "(\"ba\" | .[:(1)])", "([1,2,3] | .[(1):][0])", "(map_values(.) | .[(0):1])", "(tojson | .[(0):1])", "([.[]?] | .[1:(2)] | .[0])", "(\"abc\" | .[(1):2] | .[0:1])"}
 	wrappers := []string{"path(%s)", "[paths] as $ps | path(%s)", "%s = 1", "%s |= 1", "del(%s)", "%s += 1", "[path(%s)]", "try (%s = 1) catch \"caught\"", "(%s |= empty)"}
 	idx = 0
 	for _, cp := range computed {
